@@ -909,6 +909,18 @@ where
         }
     }
 
+    /// Number of shards whose lock is currently held (verification hook).
+    #[cfg(feature = "verif")]
+    pub fn verif_locked_shards(&self) -> usize {
+        match self {
+            Cache::Fifo(cache) => cache.verif_locked_shards(),
+            Cache::S3Fifo(cache) => cache.verif_locked_shards(),
+            Cache::Lru(cache) => cache.verif_locked_shards(),
+            Cache::Lfu(cache) => cache.verif_locked_shards(),
+            Cache::Sieve(cache) => cache.verif_locked_shards(),
+        }
+    }
+
     /// Return a new hybrid cache with the given pipe.
     #[doc(hidden)]
     pub fn with_pipe(self, pipe: ArcPipe<K, V, P>) -> Self {
